@@ -106,6 +106,8 @@ theorem walkDir_inv (c : VCfg) (f : Str → Bool) (hh : c.handler = .policy f) :
   | .file _, st, st', _, _, hi, h => by simp [walkDir] at h; subst h; exact hi
   | .special _, st, st', _, _, hi, h => by simp [walkDir] at h; subst h; exact hi
   | .dangling, st, st', _, _, hi, h => by simp [walkDir] at h; subst h; exact hi
+  | .unreadable _ true, st, st', _, _, hi, h => by simp [walkDir] at h
+  | .unreadable _ false, st, st', _, _, hi, h => by simp [walkDir] at h; subst h; exact hi
 theorem walkKids_inv (c : VCfg) (f : Str → Bool) (hh : c.handler = .policy f) :
     ∀ (ks : List (Str × Node)) (st st' : WalkSt) (sys rel : Str) (keep : List Str), Inv c f st →
       walkKids c st sys rel keep ks = .ok st' → Inv c f st'
@@ -164,6 +166,7 @@ theorem C07_result_iff (w : World) (l : Loader) (path : Str) (f : Str → Bool) 
             split at hwalk
             · cases hwalk
             · exact walkDir_inv _ f rfl _ _ _ _ _ hi0 hwalk
+            · cases hwalk
             · cases hwalk
             · cases hwalk
           have hi2 : Inv ⟨w, l.top, l.dev?, .policy f, lm⟩ f st2 :=
